@@ -341,6 +341,10 @@ func (r *checkRun) decide(noEvidence bool, evidenceOut string) int {
 			viol = append(viol, violation{ob: o, reason: "edited obligation fails (was " + old + ", " + o.Verdict + ")"})
 			continue
 		}
+		if (o.Family == "POST" || o.Family == "COPY") && o.Verdict == "sat" && clauseProvedAtBase(o, base) {
+			viol = append(viol, violation{ob: o, reason: "a postcondition that was proved at every return of this function on the pinned tree is refuted at a return path of the edited function"})
+			continue
+		}
 		if o.Verdict == "sat" && r.fullyProvedAtBase(o, base) {
 			viol = append(viol, violation{ob: o, reason: "new obligation refuted in a function whose obligations of this kind were all proved on the pinned tree"})
 			continue
@@ -394,6 +398,30 @@ func (r *checkRun) decide(noEvidence bool, evidenceOut string) int {
 		return 1
 	}
 	return 0
+}
+
+// clauseKey: "<fn>#POST:ensures:<clause text>" without the return path
+func clauseKey(n string) string {
+	if i := strings.Index(n, " @return "); i >= 0 {
+		return n[:i]
+	}
+	return n
+}
+
+// clauseProvedAtBase: every obligation of this postcondition clause was proved on the pinned tree.
+func clauseProvedAtBase(o *Oblig, base Baseline) bool {
+	k := clauseKey(o.Name)
+	for _, n := range base.Unproved {
+		if clauseKey(n) == k {
+			return false
+		}
+	}
+	for _, n := range base.Claimed {
+		if clauseKey(n) == k {
+			return true
+		}
+	}
+	return false
 }
 
 // fullyProvedAtBase: the function existed on the pinned tree and had no unproved obligation of this family.
